@@ -77,6 +77,31 @@ def parse_obligations(pid):
     return obs, partial
 
 
+def parse_witnesses(pid):
+    """`-- THOROUGH-WITNESS: <module> <theorem>` lines: kernel-evaluated counterexamples of clauses that are
+    listed as open known findings; too slow for every build, so only built and audited in the thorough tier"""
+    path = os.path.join(common.LEAN_DIR, 'Cirbo', 'Props', pid + '.lean')
+    with open(path) as f:
+        src = f.read()
+    return re.findall(r'^-- THOROUGH-WITNESS: (\S+) (\S+)', src, re.M)
+
+
+def check_witness(module, theorem):
+    rc, out = common.lake_build([module])
+    if rc != 0:
+        return False, out[-1500:]
+    tmp = os.path.join(common.LEAN_DIR, '.witness_axioms.lean')
+    with open(tmp, 'w') as f:
+        f.write(f'import {module}\n#print axioms {theorem}\n')
+    try:
+        rc2, out2 = common.run(['lake', 'env', 'lean', tmp], cwd=common.LEAN_DIR)
+    finally:
+        os.remove(tmp)
+    m = re.search(r"depends on axioms: \[(.*?)\]", out2, re.S)
+    axs = set(a.strip() for a in m.group(1).split(',')) if m else (set() if 'does not depend on any axioms' in out2 else {'?'})
+    return rc2 == 0 and axs <= common.ALLOWED_AXIOMS, out2[-800:]
+
+
 def first_errors(out, limit=6):
     errs = [l for l in out.splitlines() if 'error' in l.lower()]
     return errs[:limit]
@@ -129,6 +154,14 @@ def main():
         if not ok_lc:
             proof_ok = False
             out_p = 'leanchecker: ' + out_lc
+    witnesses = {}
+    if tier == 'thorough':
+        for module, theorem in parse_witnesses(pid):
+            okw, outw = check_witness(module, theorem)
+            witnesses[theorem] = 'kernel-checked' if okw else 'STALE: ' + outw[-300:]
+            if not okw:
+                # a counterexample of a listed finding that no longer checks is not a violation of the property
+                print(f'WITNESS-STALE: {theorem} no longer checks (the listed finding may be out of date)')
     if not proof_ok:
         broken.append({'kind': 'proof', 'target': target, 'errors': first_errors(out_p)})
     discharged = []
@@ -213,6 +246,7 @@ def main():
             'Lean compiler/runtime for the compiled driver cirbo_model (correspondence and search only)',
         ] + list(getattr(mod, 'TRUSTED', [])),
         'leanchecker_modules_rechecked': rechecked,
+        'counterexample_witnesses': witnesses,
         'theorems': obligations,
         'theorems_discharged': discharged,
         'axioms_seen': sorted({a for v in axioms.values() for a in v}),
